@@ -207,8 +207,8 @@ class Schedule:
 
             self.adjusted_dts.append(self.termination_dt)
 
-        if self.adjusted_dts[0] < self.effective_dt:
-            self.adjusted_dts[0] = self.effective_dt
+        # The effective date is never adjusted as it is not a payment date
+        self.adjusted_dts[0] = self.effective_dt
 
         # The market standard for swaps is not to adjust the termination date
         # unless it is specified in the contract. It is standard for CDS.
